@@ -951,10 +951,12 @@ func c12KGen(t *rapid.T) c12KCase {
 		c.PerspectiveErr = rapid.IntRange(0, 9).Draw(t, "perr") == 0
 		nr := rapid.SampledFrom([]int{0, 1, 1, 1, 2, 2, 3}).Draw(t, "nresp")
 		for i := 0; i < nr; i++ {
-			si := rapid.IntRange(0, 1).Draw(t, "respServer")
+			// (server 2 is the notary itself: its own keys looked up through it, self-signed under one
+			// key ID and notary-signed under the pinned one — both signatures carry the same name)
+			si := rapid.SampledFrom([]int{0, 0, 1, 1, 2}).Draw(t, "respServer")
 			c.PerspectiveResp = append(c.PerspectiveResp, c12GenResp(t, c12KServers[si], 3*si, true, c.Perspective, 8, "p"))
 		}
-		for si := 0; si < 2; si++ {
+		for si := 0; si < 3; si++ {
 			c.Requests = append(c.Requests, c12KeyReq{Server: c12KServers[si], KeyID: "ed25519:a"})
 		}
 	}
